@@ -639,3 +639,25 @@ class ConcUnion:
 
     def val(self, label):
         return self.value if label == self.label else None
+
+
+def ascii_only(x):
+    """every character of x is ASCII.  Decided structurally for literals, decimal renderings of integers and their
+    concatenations; otherwise the same uninterpreted predicate the model of str.encode('ascii') branches on."""
+    if not is_sym(x):
+        return all((c if isinstance(c, int) else ord(c)) < 128 for c in x)
+
+    def structurally(t):
+        if z3.is_string_value(t):
+            v = t.as_string()
+            return all(ord(c) < 128 for c in v) and '\\u{' not in v
+        if z3.is_app(t) and t.decl().kind() == z3.Z3_OP_SEQ_CONCAT:
+            return all(structurally(c) for c in t.children())
+        if z3.is_app(t) and t.decl().kind() == z3.Z3_OP_INT_TO_STR:
+            return True
+        if z3.is_app(t) and t.decl().kind() == z3.Z3_OP_ITE:
+            return structurally(t.arg(1)) and structurally(t.arg(2))
+        return False
+    if structurally(x):
+        return True
+    return z3.Function('encodeable_ascii', z3.StringSort(), z3.BoolSort())(x)
